@@ -17,43 +17,48 @@ type FirewallRule struct {
 	ToService   string
 }
 
-func buildComp(field string, pattern string) CompareFunc {
+func buildComp(field string, pattern string) (CompareFunc, error) {
 	if pattern == "" {
-		return nil
+		return nil, nil
 	}
-	var comp CompareFunc
 	if strings.HasPrefix(pattern, "/") {
-		comp, _ = regexCompare(field, pattern)
-	} else {
-		comp, _ = stringCompare(field, pattern)
+		return regexCompare(field, pattern)
 	}
 
-	return comp
+	return stringCompare(field, pattern)
 }
 
+// BuildComps returns the comparison functions of the rule. Fields whose pattern cannot be
+// interpreted are left out; use ParseFirewallRule to have them reported as errors.
 func (fr FirewallRule) BuildComps() []CompareFunc {
-	var comps []CompareFunc
-	fnc := buildComp("fromnode", fr.FromNode)
-	if fnc != nil {
-		comps = append(comps, fnc)
-	}
-
-	tnc := buildComp("tonode", fr.ToNode)
-	if tnc != nil {
-		comps = append(comps, tnc)
-	}
-
-	fsc := buildComp("fromservice", fr.FromService)
-	if fsc != nil {
-		comps = append(comps, fsc)
-	}
-
-	tsc := buildComp("toservice", fr.ToService)
-	if tsc != nil {
-		comps = append(comps, tsc)
-	}
+	comps, _ := fr.buildComps()
 
 	return comps
+}
+
+func (fr FirewallRule) buildComps() ([]CompareFunc, error) {
+	var comps []CompareFunc
+	var firstErr error
+	for _, f := range []struct{ field, pattern string }{
+		{"fromnode", fr.FromNode},
+		{"tonode", fr.ToNode},
+		{"fromservice", fr.FromService},
+		{"toservice", fr.ToService},
+	} {
+		comp, err := buildComp(f.field, f.pattern)
+		if err != nil {
+			if firstErr == nil {
+				firstErr = fmt.Errorf("invalid firewall rule. %s: %s", f.field, err)
+			}
+
+			continue
+		}
+		if comp != nil {
+			comps = append(comps, comp)
+		}
+	}
+
+	return comps, firstErr
 }
 
 // ParseFirewallRule takes a single string describing a firewall rule, and returns a FirewallRuleFunc function.
@@ -93,7 +98,10 @@ func (frd FirewallRuleData) ParseFirewallRule() (FirewallRuleFunc, error) {
 		}
 	}
 
-	comps := fr.BuildComps()
+	comps, err := fr.buildComps()
+	if err != nil {
+		return nil, err
+	}
 	fwr, err := firewallRule(comps, fr.Action)
 	if err != nil {
 		return nil, err
